@@ -101,6 +101,14 @@ class Check:
             with ctx.Pool(min(self.jobs, len(tasks))) as pool:
                 outs = list(pool.imap_unordered(_run_task, tasks, chunksize=1))
         for o in outs:
+            # a bounded stand-in (label B) is never counted as proved; a failure it finds is a real failing input
+            si = o.get('standin')
+            if si and si.get('failures'):
+                o.setdefault('results', []).append({
+                    'id': f"{self.prop}/bounded-stand-in/{o.get('task', 'standin')}", 'kind': 'P', 'prop': self.prop, 'label': 'B',
+                    'status': 'refuted', 'backend': 'CPython (bounded)', 'seconds': 0.0, 'native': True,
+                    'detail': f"failing inputs found by the bounded stand-in: {si['failures'][:4]}", 'meta': {'bound': si.get('bound')},
+                    'model': {'standin_failures': si['failures'][:6]}})
             self.task_reports.append({k: v for k, v in o.items() if k != 'results' and not k.startswith('_')})
             if o.get('error'):
                 self.errors.append(f"{o.get('task')}: {o['error']}")
